@@ -405,6 +405,12 @@ def reshape(tens, shape, eps=1e-16, rmax=sys.maxsize):
         # input cores the loop did not consume (idx is the first of them) have modes of size 1: absorb them instead of dropping them
         for c in cores[idx:]:
             cores_new[-1] = tn.einsum('ijkl,lm->ijkm', cores_new[-1], c[:, 0, 0, :])
+        # target modes (1, 1) the loop did not reach
+        idx_shape += 1
+        while idx_shape < len(shape):
+            cores_new.append(
+                tn.ones((1, 1, 1, 1), dtype=cores_new[-1].dtype, device=cores_new[-1].device))
+            idx_shape += 1
 
     else:
         if np.prod(tens.N) != np.prod(shape):
